@@ -590,8 +590,10 @@ def compress(sched):
 SWEEP_CONFIGS = [('o', 'p', '-'), ('o', 'p', 's'), ('o', 'p', 't'), ('o', 'p', 'st'), ('o', 'w', 's'), ('o', 'w', 't'), ('o', 'w', 'ts'),
                  ('o', 'f', 's'), ('o', 'f', 't'), ('o', 'f', 'st'),
                  ('r', 'p', '-'), ('r', 'p', 's'), ('r', 'p', 'ss'), ('r', 'p', 'st'), ('r', 'p', 'sssss'), ('r', 'w', 's'), ('r', 'w', 'ss'),
-                 ('r', 'w', 't'), ('r', 'w', 'ssssss'), ('r', 'f', 's'), ('r', 'f', 't'), ('r', 'f', 'sst'), ('r', 'f', 'ssssst')]
-SWEEP_NAMES = {'o': 'SignalOnly', 'r': 'WithRawSiginfo', 'p': 'pending()', 'w': 'wait()', 'f': 'forever().next()'}
+                 ('r', 'w', 't'), ('r', 'w', 'ssssss'), ('r', 'f', 's'), ('r', 'f', 't'), ('r', 'f', 'sst'), ('r', 'f', 'ssssst'),
+                 # add_signal(SIGUSR2) single-stepped, SIGUSR2 delivered at the boundary
+                 ('o', 'a', '-'), ('r', 'a', '-')]
+SWEEP_NAMES = {'o': 'SignalOnly', 'r': 'WithRawSiginfo', 'p': 'pending()', 'w': 'wait()', 'f': 'forever().next()', 'a': 'add_signal(SIGUSR2)', 'd': 'drop(instance)'}
 C09_KINDS = ('LOST', 'BLOCKED', 'CRASH')
 C10_KINDS = ('EXTRA', 'UNWATCHED', 'FIELD', 'ORDER', 'CRASH')
 
@@ -629,12 +631,16 @@ def sweep_configs(tier):
                 if pre == '-' and o != 'p':
                     continue
                 cfgs.append((e, o, pre))
-    return cfgs
+    return cfgs + [('o', 'a', '-'), ('r', 'a', '-')]
 
 
-def instr_sweep(ctx, want):
+DROP_CONFIGS = [('o', 'd', '-'), ('r', 'd', '-')]
+C12_KINDS = ('SURVIVED', 'OPEN', 'BLOCKED', 'CRASH')
+
+
+def instr_sweep(ctx, want, configs=None, key='instruction_delivery_sweep'):
     from concurrent.futures import ThreadPoolExecutor
-    SWEEP_CONFIGS = sweep_configs(ctx.tier)
+    SWEEP_CONFIGS = configs or sweep_configs(ctx.tier)
     with ThreadPoolExecutor(max_workers=12) as ex:
         results = list(ex.map(sweep_one, SWEEP_CONFIGS))
     hits, total, incomplete, per = {}, 0, [], {}
@@ -661,10 +667,10 @@ def instr_sweep(ctx, want):
                 hits[kind] = hits.get(kind, 0) + 1
                 if kind in want and hits[kind] <= 3:
                     ctx.violation({'monitor': 'instr-' + kind, 'exf': e, 'outer': o, 'pre': pre, 'k': row['k']},
-                                  '%s, one more SIGUSR1 delivered after %d instructions of the call: %s [%s]' % (name, row['k'], row['verdict'], row['yields']),
+                                  '%s, one more %s delivered after %d instructions of the call: %s [%s]' % (name, 'SIGUSR2' if o == 'a' else 'SIGUSR1', row['k'], row['verdict'], row['yields']),
                                   {'instr_sweep': {'exf': e, 'outer': o, 'pre': pre, 'k': row['k']}, 'observed': row})
     ctx.correspondence('instruction-level delivery sweep ran to the end in all %d configurations' % len(SWEEP_CONFIGS), not incomplete, incomplete[:3])
-    ctx.coverage['instruction_delivery_sweep'] = {'configurations': len(SWEEP_CONFIGS), 'boundaries': total, 'complaints': hits, 'boundaries_per_configuration': per}
+    ctx.coverage[key] = {'configurations': len(SWEEP_CONFIGS), 'boundaries': total, 'complaints': hits, 'boundaries_per_configuration': per}
     ctx.traces += total - sum(hits.values())
 
 
